@@ -99,6 +99,8 @@ def kwargs_for(core, ref, atfk):
             bf_kwargs['ref_channel'] = ref
         elif last == 'wmwf':
             bf_kwargs['reference_channel'] = ref
+    if atfk == 'freqdep' and last == 'wmwf':
+        bf_kwargs['distortion_weight'] = 'frequency_dependent'
     if atfk == 'trace':
         if core == 'pca':
             bf_kwargs['scaling'] = 'trace'
@@ -296,13 +298,15 @@ def subchecks(tier, seed):
         for seed in seeds_:
             for name in names:
                 for ref in (None, 0, 1, 2):
-                    for atfk in ('default', 'trace', 'use_eig'):
+                    for atfk in ('default', 'trace', 'use_eig', 'freqdep'):
                         for D in (2, 3, 5):
                             for F in Fs:
                                 for nlead in (0, 1, 2):
-                                    if atfk != 'default' and (ref not in (None, 0) or D == 5):
-                                        continue
                                     core = name[:-4] if name.endswith('+ban') else name
+                                    if atfk == 'freqdep' and (core.split('+')[-1] != 'wmwf' or ref is None):
+                                        continue
+                                    if atfk not in ('default', 'freqdep') and (ref not in (None, 0) or D == 5):
+                                        continue
                                     needs_ref = core.split('+')[-1] in ('mvdr_souden', 'wmwf')
                                     if ref is not None and (not needs_ref or ref >= D):
                                         continue
